@@ -13,6 +13,15 @@ Open Scope list_scope.
 Lemma method_positions_reached : forall p, class_level p = false ->
   reached lcom_walk_fields 1 p [] = true /\ reached lcom_walk_fields 1 p [FValue] = true.
 Proof. intros p; destruct p; intros H; try discriminate H; vm_compute; split; reflexivity. Qed.
+Lemma lcom_slots_walked : forall s, path_walked lcom_walk_fields (slot_path s) = true.
+Proof. intros s; destruct s; vm_compute; reflexivity. Qed.
+(* ... also when nested in the argument list of another call, to any depth *)
+Lemma method_positions_reached_at : forall p slots, class_level p = false ->
+  reached_at lcom_walk_fields 1 p slots [] = true /\ reached_at lcom_walk_fields 1 p slots [FValue] = true.
+Proof.
+  intros p slots H. destruct (method_positions_reached p H).
+  split; apply reached_at_slots; auto using lcom_slots_walked.
+Qed.
 
 Lemma self_name_is_self : model_self = spec_self.
 Proof. reflexivity. Qed.
@@ -40,8 +49,8 @@ Proof.
   intros md. unfold spec_attrs.
   assert (H := method_mentions_level md). induction (method_mentions md) as [| m r IH]; simpl; [reflexivity|].
   rewrite IH by (intros; apply H; right; assumption). f_equal.
-  destruct (method_positions_reached (m_pos m) (H m (or_introl eq_refl))) as [R1 R2].
-  destruct m as [k p]; simpl in R1, R2. unfold mention_vars; simpl.
+  destruct (method_positions_reached_at (m_pos m) (m_slots m) (H m (or_introl eq_refl))) as [R1 R2].
+  destruct m as [k p sl]; simpl in R1, R2. unfold mention_vars; simpl.
   destruct k; simpl; rewrite ?R1, ?R2, ?andb_true_r; reflexivity.
 Qed.
 Theorem calls_exact : forall md, flat_map mention_calls (method_mentions md) = spec_calls md.
@@ -49,8 +58,8 @@ Proof.
   intros md. unfold spec_calls.
   assert (H := method_mentions_level md). induction (method_mentions md) as [| m r IH]; simpl; [reflexivity|].
   rewrite IH by (intros; apply H; right; assumption). f_equal.
-  destruct (method_positions_reached (m_pos m) (H m (or_introl eq_refl))) as [R1 R2].
-  destruct m as [k p]; simpl in R1, R2. unfold mention_calls; simpl.
+  destruct (method_positions_reached_at (m_pos m) (m_slots m) (H m (or_introl eq_refl))) as [R1 R2].
+  destruct m as [k p sl]; simpl in R1, R2. unfold mention_calls; simpl.
   destruct k; simpl; rewrite ?R1, ?andb_true_r; reflexivity.
 Qed.
 
